@@ -51,6 +51,11 @@ ASSUMPTIONS = [
     "Fisher relation for the N-dimensional Gaussian is demanded on symmetric matrix tangents only",
     "transformation-in-expectation for the N-dimensional Gaussian is demanded on mean directions and matrix "
     "directions that commute with the covariance/precision (see KNOWN_PROBES['nd_transformation_noncommuting'])",
+    "where the covariance/precision of the N-dimensional Gaussian has a repeated eigenvalue and the derivative of its "
+    "transformation is not finite, the transformation relation is skipped (KNOWN_PROBES['nd_transformation_nan_degenerate'])",
+    "Categorical is constructed with n_categories=<length of the category axis> when the constructor accepts it "
+    "(fixes/C12_categorical_*.diff); without it the declared lsm_tangents_shape is the data shape and M = L R is violated; "
+    "compositions include Categorical only when n_categories is available",
     "likelihood sums are built from likelihoods with dict / Vector domains or amended forward models on a shared "
     "latent space (plain-array domains cannot be merged by LikelihoodSum)",
 ]
@@ -479,7 +484,8 @@ def check_studentt(rec):
 
 @st.composite
 def studentt_recipes(draw, tier):
-    return dict(layout=draw(st.sampled_from(LAYOUT_NAMES)), noise=draw(st.sampled_from(NOISE_FORMS)),
+    # dense (non-diagonal) noise is drawn more often: with a per-datum dof it does not commute with the dof factor
+    return dict(layout=draw(st.sampled_from(LAYOUT_NAMES)), noise=draw(st.sampled_from(NOISE_FORMS + ["dense_fn"] * 2)),
                 dof_tree=draw(st.booleans()), dof=draw(S.vec(NMAX, S.dyadic_nz(0.5, 8.0, 4, signed=False))),
                 d=draw(nums(NMAX)), p=draw(nums(NMAX)), q=draw(nums(NMAX)), w=draw(pos(NMAX)),
                 B=draw(sqmat(NMAX)), v=draw(nums(NMAX)))
@@ -1404,7 +1410,7 @@ SUBS = [
         jax=True, budget_quick=100.0, rule=_NT + "; real and complex data, primals as tuple and as Vector"),
     Sub(name="vcstudentt", check=check_vcstudentt, strategy=vcstudentt_recipes, quick=24, thorough=1000, shards=1,
         jax=True, budget_quick=100.0, rule=_NT + ", or per-datum dof"),
-    Sub(name="ndvcgaussian", check=check_ndvcgaussian, strategy=ndvcgaussian_recipes, quick=30, thorough=1500,
+    Sub(name="ndvcgaussian", check=check_ndvcgaussian, strategy=ndvcgaussian_recipes, quick=24, thorough=1500,
         shards=3, jax=True, budget_quick=100.0,
         rule="non-trivial = batch of Gaussians or Vector of two leaves; d in 1..3, covariance and precision"),
     Sub(name="amend", check=check_amend, strategy=amend_recipes, quick=45, thorough=2000, shards=2, jax=True, budget_quick=100.0,
